@@ -127,7 +127,7 @@ def binom_two_sided_ok(ones, n, alpha=1e-9):
 def run(ctx):
     rng = ctx.rng
     lines, exps, metas = [], [], []
-    N = ctx.scale(40, 300)
+    N = ctx.scale(24, 300)
     cfgs = [(3, 1, False, 30), (3, 1, True, 30), (5, 2, False, 30), (5, 2, True, 8), (4, 1, False, 8)]
     if ctx.thorough:
         cfgs += [(7, 3, False, 30), (7, 2, True, 30), (5, 1, False, 30)]
